@@ -528,7 +528,7 @@ impl<'a> IrEmitter<'a> {
     }
 
     fn emit_trait_method(&self, func: &super::super::decl::IrFunction) -> Result<TokenStream, EmitError> {
-        let name = format_ident!("{}", &func.name);
+        let name = format_ident!("{}", Self::escape_keyword(&func.name));
 
         let params: Vec<TokenStream> = func
             .params
@@ -540,7 +540,7 @@ impl<'a> IrEmitter<'a> {
                         super::super::types::Mutability::Immutable => quote! { &self },
                     }
                 } else {
-                    let pname = format_ident!("{}", &p.name);
+                    let pname = format_ident!("{}", Self::escape_keyword(&p.name));
                     let pty = self.emit_type(&p.ty);
                     quote! { #pname: #pty }
                 }
@@ -670,7 +670,7 @@ impl<'a> IrEmitter<'a> {
                         let mut init_fields: Vec<TokenStream> = Vec::new();
 
                         for fname in field_names {
-                            let f_ident = format_ident!("{}", fname);
+                            let f_ident = format_ident!("{}", Self::escape_keyword(&fname));
                             if let Some(default_expr) = self
                                 .struct_field_defaults
                                 .get(&(impl_block.target_type.clone(), fname.clone()))
@@ -740,7 +740,7 @@ impl<'a> IrEmitter<'a> {
     }
 
     fn emit_method(&self, func: &super::super::decl::IrFunction) -> Result<TokenStream, EmitError> {
-        let name = format_ident!("{}", &func.name);
+        let name = format_ident!("{}", Self::escape_keyword(&func.name));
         let vis = self.emit_visibility(&func.visibility);
         let mutated_params = self.collect_mutated_params(func);
 
@@ -754,7 +754,7 @@ impl<'a> IrEmitter<'a> {
                         super::super::types::Mutability::Immutable => quote! { &self },
                     }
                 } else {
-                    let pname = format_ident!("{}", &p.name);
+                    let pname = format_ident!("{}", Self::escape_keyword(&p.name));
                     let pty = self.emit_type(&p.ty);
                     let needs_mut = mutated_params.contains(&p.name)
                         || matches!(p.mutability, super::super::types::Mutability::Mutable);
@@ -790,7 +790,7 @@ impl<'a> IrEmitter<'a> {
     }
 
     fn emit_function(&self, func: &super::super::decl::IrFunction) -> Result<TokenStream, EmitError> {
-        let name = format_ident!("{}", &func.name);
+        let name = format_ident!("{}", Self::escape_keyword(&func.name));
         let is_main = func.name == conventions::ENTRYPOINT_NAME;
         let mutated_params = self.collect_mutated_params(func);
 
@@ -924,7 +924,7 @@ impl<'a> IrEmitter<'a> {
                 .fields
                 .iter()
                 .map(|f| {
-                    let fname = format_ident!("{}", &f.name);
+                    let fname = format_ident!("{}", Self::escape_keyword(&f.name));
                     let fty = self.emit_type(&f.ty);
                     let fvis = self.emit_visibility(&f.visibility);
                     quote! { #fvis #fname: #fty }
@@ -936,7 +936,7 @@ impl<'a> IrEmitter<'a> {
                     .fields
                     .iter()
                     .map(|f| {
-                        let fname = format_ident!("{}", &f.name);
+                        let fname = format_ident!("{}", Self::escape_keyword(&f.name));
                         let fty = self.emit_type(&f.ty);
                         quote! { #fname: #fty }
                     })
@@ -945,7 +945,7 @@ impl<'a> IrEmitter<'a> {
                     .fields
                     .iter()
                     .map(|f| {
-                        let fname = format_ident!("{}", &f.name);
+                        let fname = format_ident!("{}", Self::escape_keyword(&f.name));
                         quote! { #fname }
                     })
                     .collect();
@@ -992,7 +992,7 @@ impl<'a> IrEmitter<'a> {
                         let field_tokens: Vec<_> = fields
                             .iter()
                             .map(|f| {
-                                let fname = format_ident!("{}", &f.name);
+                                let fname = format_ident!("{}", Self::escape_keyword(&f.name));
                                 let fty = self.emit_type(&f.ty);
                                 quote! { #fname: #fty }
                             })
